@@ -55,6 +55,10 @@ def check(ctx):
                "the result is midnight(day) - fraction")
     ctx.guarded(o, lambda o: sched_dep.search_monotone(ctx, o, S))
 
+    # the schedulers start their search at IResource.get_nearest_availability_date: its shape is C17's obligation, reused here
+    from . import c17 as _c17
+    _c17._search(ctx)
+
     o = ctx.ob('fill_from_deadline', 'R8',
                "the backward fill starts at min(task.end, bound) and its first booked day is the day before midnight of that date", floor=2)
     ctx.guarded(o, lambda o: fill_start(ctx, o, ps))
